@@ -44,7 +44,12 @@ RULE = ('Configuration grid reconnection on/off x reconnection_attempts '
         'connect handlers again after success; no attempt after intentional '
         'causes, with reconnection off, or after shutdown(). Non-trivial: '
         '>=2 failed attempts, or an abort, or a second loss after a '
-        'successful reconnection.')
+        'successful reconnection. Also generated: the application calls '
+        'disconnect() while the loss is being reported (from the disconnect '
+        'handler; asyncio: from another task while the handler is '
+        'suspended) - no effort may follow; a connect_error handler that '
+        'raises at its j-th invocation during the effort - the effort goes '
+        'on.')
 ASSUMPTIONS = [
     'waiting is observed through the wait primitives, never by wall clock',
     '"retries until success" is checked as bounded safety (finite patterns; '
